@@ -267,7 +267,35 @@ end Gaftools.Gen
 """ % body
 
 
+def gen_is_secondary():
+    """the test guarding `total_secondary += 1` in stat.run_stat, as a function of (is_primary, mapping_quality)"""
+    path, src = src_of("gaftools/cli/stat.py")
+    fn = find_func(ast.parse(src), "run_stat")
+    test = None
+    for n in ast.walk(fn):
+        if isinstance(n, ast.If):
+            for st in n.body:
+                if isinstance(st, ast.AugAssign) and isinstance(st.target, ast.Name) and st.target.id == "total_secondary":
+                    test = n.test
+    if test is None:
+        raise Untranslatable("secondary test not found")
+    FIELD = {"is_primary": "(isPrimary = true)", "mapping_quality": "(mapq : Int)"}
+
+    def attr(o, a):
+        if a in FIELD:
+            return FIELD[a]
+        raise Untranslatable("attr %s.%s" % (o, a))
+
+    e = Tr(attr).expr(test)
+    return """/-! generated by harness/translate.py from gaftools/cli/stat.py : the secondary test of run_stat — do not edit -/
+namespace Gaftools.Gen
+def isSecondary (isPrimary : Bool) (mapq : Nat) : Bool := decide %s
+end Gaftools.Gen
+""" % e
+
+
 GENERATORS = {
+    "IsSecondary": gen_is_secondary,
     "CmpGaf": gen_cmp_gaf,
     "MergeNodes": gen_merge_nodes,
     "Tables": gen_tables,
@@ -300,6 +328,11 @@ def regenerate(only=None):
 
 
 FALLBACK = {
+    "IsSecondary": """/-! FALLBACK (source construct outside the translator's subset) -/
+namespace Gaftools.Gen
+def isSecondary (isPrimary : Bool) (mapq : Nat) : Bool := !isPrimary || mapq ≤ 0
+end Gaftools.Gen
+""",
     "Tables": """/-! FALLBACK (source construct outside the translator's subset): the tables as modelled by hand -/
 namespace Gaftools.Gen
 def eDir (a b : Bool) : Bool × Bool := (a, !b)
